@@ -5,6 +5,7 @@ package llh
 import (
 	"fmt"
 	"os"
+	"runtime"
 	"sort"
 	"strings"
 	"sync"
@@ -393,4 +394,33 @@ func (h *H) EvalUnder(pc []*smt.Expr, m *smt.Model, fixed []*smt.Expr, terms []*
 		return nil
 	}
 	return mm
+}
+
+// Wrap makes cells panic-safe: a panic inside the harness machinery is an engine failure with
+// the innermost frames of the stack.
+func Wrap(r *core.Report, cells []CellFn) []CellFn {
+	out := make([]CellFn, len(cells))
+	for i, f := range cells {
+		f := f
+		out[i] = func() {
+			defer func() {
+				if p := recover(); p != nil {
+					buf := make([]byte, 8192)
+					n := runtime.Stack(buf, false)
+					var keep []string
+					for _, l := range strings.Split(string(buf[:n]), "\n") {
+						if strings.Contains(l, "verif/engine") && !strings.Contains(l, "llh.Wrap") {
+							keep = append(keep, strings.TrimSpace(l))
+						}
+						if len(keep) >= 6 {
+							break
+						}
+					}
+					r.EngineFailf("panic in cell: %v @ %s", p, strings.Join(keep, " <- "))
+				}
+			}()
+			f()
+		}
+	}
+	return out
 }
